@@ -60,7 +60,7 @@ pub fn shape(d: &Automerge, heads: Option<&[ChangeHash]>) -> String {
 }
 
 fn check(d: &Automerge, info: &DocInfo, rep: &Report, cap: usize) -> Result<(), Violation> {
-    let nseeds: u8 = if rep.tier == "thorough" { 48 } else { 8 };
+    let nseeds: u8 = if rep.tier == "thorough" { 48 } else { 4 };
     for seed in (0..nseeds).map(|i| [i.wrapping_mul(37).wrapping_add(3); 32]) {
         let an = automerge::anonymize::anonymize_with_seed(d, seed).map_err(|e| Violation::new("anonymize-ok", "Err", format!("{:?}", e)))?;
         let (oc, ac) = (d.get_changes(&[]), an.get_changes(&[]));
@@ -150,7 +150,7 @@ pub fn run(args: &Args) -> i32 {
         "model_checking",
         PoolCfg { quick_scale: 0, thorough_scale: 1, ..Default::default() },
         Arc::new(oracle),
-        "every distinct document reached by the history explorer (replicas and merges; text, marks, counters, conflicts, nested objects) anonymised with 8 (quick) / 48 (thorough) fixed seeds through the hook anonymize_with_seed (and once through the public random-seed entry point, which must succeed): change i <-> change i is a graph isomorphism (seq, start_op, op count, max_op, deps under the map, op kinds, insert flags, pred counts, a consistent actor map that preserves actor order, heads map); the id-free shape (object types, key byte lengths, conflict lists with scalar types and string/byte lengths, sequence lengths, per-element UTF-8/UTF-16 widths, number and name lengths of marks per element) is equal now and at every consistent cut; the anonymised document saves and reloads to the same shape and heads",
+        "every distinct document reached by the history explorer (replicas and merges; text, marks, counters, conflicts, nested objects) anonymised with 4 (quick) / 48 (thorough) fixed seeds through the hook anonymize_with_seed (and once through the public random-seed entry point, which must succeed): change i <-> change i is a graph isomorphism (seq, start_op, op count, max_op, deps under the map, op kinds, insert flags, pred counts, a consistent actor map that preserves actor order, heads map); the id-free shape (object types, key byte lengths, conflict lists with scalar types and string/byte lengths, sequence lengths, per-element UTF-8/UTF-16 widths, number and name lengths of marks per element) is equal now and at every consistent cut; the anonymised document saves and reloads to the same shape and heads",
         &["hook: anonymize_with_seed (cfg automerge_verif) for replayable seeds; the verdict does not depend on the seed"],
     )
 }
